@@ -22,6 +22,7 @@ import (
 
 	"github.com/IrineSistiana/mosproxy/app/router"
 	"github.com/IrineSistiana/mosproxy/internal/dnsmsg"
+	"github.com/IrineSistiana/mosproxy/internal/pool"
 	"github.com/quic-go/quic-go"
 	"golang.org/x/net/http2"
 )
@@ -106,6 +107,21 @@ func (u *scriptUp) ExchangeContext(ctx context.Context, q []byte) (*dnsmsg.Msg, 
 	r.Questions = append(r.Questions, rq)
 	if strings.HasPrefix(first, "nx") {
 		r.Header.RCode = dnsmsg.RCodeNameError
+		return r, nil
+	}
+	if strings.HasPrefix(first, "big") { // big<k>: k TXT-like raw records of 100 octets each
+		k := atoi(first[3:])
+		for i := 0; i < k; i++ {
+			rr := dnsmsg.NewRaw()
+			rr.Name = nameBuf(qq.Name)
+			rr.Type, rr.Class, rr.TTL = 16, qq.Class, 300
+			d := make([]byte, 100)
+			d[0] = 99
+			d[1] = byte(i)
+			rr.Data = pool.GetBuf(len(d))
+			copy(rr.Data, d)
+			r.Answers = append(r.Answers, rr)
+		}
 		return r, nil
 	}
 	a := dnsmsg.NewA()
